@@ -1,7 +1,10 @@
 """C02 — cross-validation integrity: no PSM is scored by a model that saw its spectrum."""
 from __future__ import annotations
 
+import contextlib
+import copy
 import json
+import types
 from zlib import crc32
 
 import numpy as np
@@ -19,7 +22,11 @@ RULE = (
     "are recovered from the recorded calls and the returned scores; the training sets are also compared with the "
     "model of make_train_sets (ValueError of rng.choice <=> model reject), the whole run with the model `brewRun`, "
     "the spectrum clauses are re-stated on the real key tuples, and on a sample of the runs brew() is called again "
-    "with the returned models (permuted / one missing / one untrained, other seed and chunk size); "
+    "with the returned models (permuted / one missing / one untrained / without fold numbers, other seed and chunk "
+    "size); second pass: the inner block loop of make_train_sets is entered by lowering its literal block size, the "
+    "reader's real chunk lengths are fed to the two-chunker model of _predict, different spectra sharing the first two "
+    "key columns are generated, the key clauses use the generated tables (not the parsed dataset), psms is passed as "
+    "list / tuple / bare dataset, rng as int / Generator; "
     "distinct = distinct (hash vector structure, folds, cap, sizes); non-trivial = some spectrum has >= 2 PSMs"
 )
 
@@ -49,6 +56,20 @@ def gen_case(rng):
     case["seed2"] = rng.randrange(1000)
     # (chunks of one or two rows are exercised by the first call; they make a call several times slower)
     case["cpred2"] = rng.choice([3, 5, "n-1", "n", "n+1", 700000])
+    # ---- second pass.  The added dimensions are drawn from a generator seeded by a draw of chk.rng that was
+    # already part of the case (so the first-pass case stream of every VERIF_SEED is unchanged, and so is its cost)
+    import random
+    sub = random.Random(case["data_seed"] ^ 0x5BD1E995)
+    # all worker counts 1..8 (the first pass drew from {1, 2, 4, 8})
+    case["workers"] = sub.choice({1: [1], 2: [2, 3], 4: [4, 5, 6], 8: [7, 8]}[case["workers"]])
+    # block size of the inner loop of make_train_sets (None = the literal 5 000 000 is left alone)
+    case["crange"] = sub.choice([None, None, 1, 2, 7, "n/3", "n/2", "n-1"])
+    # different spectra that agree on the first two spectrum-key columns (effective with >= 3 key columns)
+    case["collide"] = sub.random() < 0.4
+    case["psms_form"] = sub.choice(["list", "list", "tuple", "bare"]) if nfiles == 1 else sub.choice(["list", "list", "tuple"])
+    case["rng_form"] = sub.choice(["int", "int", "generator"])
+    if case["rescore"] is None and sub.random() < 0.15:
+        case["rescore"] = sub.choice(["nofold-one", "nofold-all"])
     return case
 
 
@@ -62,6 +83,48 @@ def csize(v, n):
     return {"n-1": max(1, n - 1), "n": n, "n+1": n + 1}.get(v, v)
 
 
+BLOCK_LITERAL = 5000000
+
+
+@contextlib.contextmanager
+def block_size(cr):
+    """run with the block size of the inner loop of `make_train_sets` (the literal `chunk_range = 5000000`,
+    brew.py:334) lowered to `cr`: the REAL function is re-created from its own code object with that one constant
+    replaced and installed as the module attribute `brew` looks up.  Yields whether the loop can be entered this
+    way (False: no lowering asked for, or the literal is not in the code any more)"""
+    B = P.mod("mokapot.brew")
+    fn = B.make_train_sets
+    code = getattr(fn, "__code__", None)
+    if cr is None or code is None or hasattr(fn, "__wrapped__") or \
+            not any(type(c) is int and c == BLOCK_LITERAL for c in code.co_consts):
+        yield False
+        return
+    consts = tuple(int(cr) if (type(c) is int and c == BLOCK_LITERAL) else c for c in code.co_consts)
+    new = types.FunctionType(code.replace(co_consts=consts), fn.__globals__, fn.__name__, fn.__defaults__,
+                             fn.__closure__)
+    new.__kwdefaults__ = fn.__kwdefaults__
+    B.make_train_sets = new
+    try:
+        yield True
+    finally:
+        B.make_train_sets = fn
+
+
+KEY_COLUMNS = ("filename", "ScanNr", "ret_time", "ExpMass")   # the order read_pin gives the spectrum columns
+
+
+def share_first_two_key_columns(r, df):
+    """give some spectra the scan number of another spectrum of the same file name: with a key of three or four
+    columns (filename, ScanNr, [ret_time,] ExpMass) they stay different spectra (ExpMass differs) but agree on the
+    two columns `_split` hashes.  Returns the number of spectra changed."""
+    if "filename" not in df.columns:
+        return 0            # key = (ScanNr[, ExpMass]): the first two columns are the whole key
+    scans = set(int(x) for x in df["ScanNr"].unique())
+    remap = {s_: s_ - 2 for s_ in sorted(scans) if s_ - 2 in scans and r.random() < 0.5}
+    df["ScanNr"] = [remap.get(int(x), int(x)) for x in df["ScanNr"]]
+    return len(remap)
+
+
 def run_case(chk, case):
     import random
     import mokapot
@@ -70,11 +133,14 @@ def run_case(chk, case):
     with P.workdir() as d:
         tabs, dss, offs, paths = [], [], [], []
         off = 0
+        ncollide = 0
         for k in range(case["nfiles"]):
             df = mkdata.make_psm_table(r, n_spectra=case["n_spectra"][k], max_per_spectrum=case["max_per"], n_feat=2,
                                        label_enc="pm1", optional=case["optional"], signal=4.0)
             df["rowid"] = np.arange(off, off + len(df))
             df["SpecId"] = [f"f{k}_{i}" for i in range(len(df))]
+            if case.get("collide"):
+                ncollide += share_first_two_key_columns(r, df)
             offs.append(off)
             off += len(df)
             tabs.append(df)
@@ -83,17 +149,30 @@ def run_case(chk, case):
             paths.append(p)
         ntot = off
         hashes = [spectrum_hashes(ds) for ds in dss]
-        spectra = [[tuple(x) for x in ds.spectra_dataframe[ds.spectrum_columns].values] for ds in dss]
+        # the spectrum keys for the clauses of the property: from the GENERATED tables (independent of the parser's
+        # spectra_dataframe, which is what `_split` reads)
+        key_cols = [c for c in KEY_COLUMNS if c in tabs[0].columns]
+        spectra = [list(zip(*[t[c].tolist() for c in key_cols])) for t in tabs]
+        parsed = [[tuple(x) for x in ds.spectra_dataframe[ds.spectrum_columns].values] for ds in dss]
+        frame_ok = all(list(ds.spectrum_columns) == key_cols for ds in dss) and \
+            all(len(a) == len(b) and all(tuple(map(float_or_str, x)) == tuple(map(float_or_str, y))
+                                         for x, y in zip(a, b)) for a, b in zip(spectra, parsed))
         train_total = ntot  # rough size for the cap choices
         cap = {None: None, "small": max(2 * case["nfiles"], ntot // 6), "mid": ntot // 2, "big": 10 * ntot}[case["cap"]]
         run = recest.new_run()
         est = recest.TagProba(run=run)
         model = mokapot.Model(est, scaler="as-is", train_fdr=0.5, max_iter=2, override=True, rng=case["seed"])
         nmax = max(len(t) for t in tabs)
+        crange = {"n/3": max(1, nmax // 3), "n/2": max(1, nmax // 2), "n-1": max(1, nmax - 1)}.get(
+            case.get("crange"), case.get("crange"))
+        psms_arg = {"list": dss, "tuple": tuple(dss), "bare": dss[0]}[case.get("psms_form", "list")]
+        rng_arg = np.random.default_rng(case["seed"]) if case.get("rng_form") == "generator" else case["seed"]
+        lowered = False
         try:
-            with P.chunk_sizes(read_all=csize(case["cread"], nmax), predict=csize(case["cpred"], nmax)):
-                _, models, scores, descs = mokapot.brew(dss, model, test_fdr=0.5, folds=case["folds"],
-                                                        max_workers=case["workers"], rng=case["seed"],
+            with P.chunk_sizes(read_all=csize(case["cread"], nmax), predict=csize(case["cpred"], nmax)), \
+                    block_size(crange) as lowered:
+                _, models, scores, descs = mokapot.brew(psms_arg, model, test_fdr=0.5, folds=case["folds"],
+                                                        max_workers=case["workers"], rng=rng_arg,
                                                         subset_max_train=cap)
             outcome = "ok"
         except IndexError:
@@ -101,7 +180,7 @@ def run_case(chk, case):
         except ValueError as e:
             if "Cannot take a larger sample" in str(e):
                 chk.reject("cap-larger-than-file-share")
-                check_choice_reject(chk, case, hashes, [len(t) for t in tabs], cap, nmax)
+                check_choice_reject(chk, case, hashes, [len(t) for t in tabs], cap, nmax, crange if lowered else None)
                 return
             if "PSMs were detected" in str(e) or "PSMs were available" in str(e):
                 chk.reject("training-set-without-targets-or-decoys")
@@ -117,6 +196,11 @@ def run_case(chk, case):
         except RuntimeError as e:
             chk.reject("training-failed:" + str(e)[:40])
             return
+        except Exception as e:      # any other exception on an input the property quantifies over (with the case,
+            # so that the replay reproduces it)
+            chk.spec_violation("exception:" + type(e).__name__,
+                               dict(case=case, error=str(e)[:300], clause="brew raised " + type(e).__name__))
+            return
         # model side of the fold computation
         resp = common.driver_batch([req("split", case["folds"], h) for h in hashes])
         model_reject = any(x.strip() == "reject-index" for x in resp)
@@ -124,6 +208,13 @@ def run_case(chk, case):
         chk.count("folds", case["folds"]); chk.count("nfiles", case["nfiles"]); chk.count("cap", str(case["cap"]))
         chk.count("workers", case["workers"]); chk.count("keycols", len(dss[0].spectrum_columns))
         chk.count("cread", str(case["cread"])); chk.count("cpred", str(case["cpred"]))
+        chk.count("block-loop", "not-lowered" if case.get("crange") is None else
+                  ("literal-absent" if not lowered else
+                   ("entered" if any(len(t) > crange for t in tabs) else "one-block")))
+        chk.count("block-size", str(case.get("crange")))
+        chk.count("shared-first-two-key-columns", "none" if not ncollide else "some-spectra")
+        chk.count("psms-form", case.get("psms_form", "list")); chk.count("rng-form", case.get("rng_form", "int"))
+        chk.count("parsed-spectra-frame", "as-generated" if frame_ok else "differs")
         multi = any(len(set(s)) < len(s) for s in spectra)
         key = (tuple(tuple(np.unique(h, return_inverse=True)[1].tolist()) for h in hashes), case["folds"],
                str(case["cap"]), case["seed"]) if multi else None
@@ -222,10 +313,18 @@ def run_case(chk, case):
         if problems or not model_ok:
             return
         # ---- model of make_train_sets and of the whole run
-        compare_train_model(chk, case, info, hashes, [len(t) for t in tabs], cap, nmax, impl_folds, impl_trains,
-                            impl_routing, train_ids)
+        if not compare_train_model(chk, case, info, hashes, [len(t) for t in tabs], cap, nmax, impl_folds, impl_trains,
+                                   impl_routing, train_ids, crange if lowered else None, dss):
+            return
         # ---- brew() again with the models just returned
         rescore(chk, case, info, paths, run, models, scores, fold_of_tag, hashes, impl_trains, cap, nmax)
+
+
+def float_or_str(x):
+    try:
+        return float(x)
+    except (TypeError, ValueError):
+        return str(x)
 
 
 def cap_arg(cap):
@@ -252,7 +351,7 @@ def key_level_problems(case, spectra, impl_routing, impl_folds, impl_trains):
     return out
 
 
-def check_choice_reject(chk, case, hashes, sizes, cap, nmax):
+def check_choice_reject(chk, case, hashes, sizes, cap, nmax, crange=None):
     """brew raised the ValueError of rng.choice: the model of make_train_sets (fed with the model's folds, whose
     membership is determined by the hashes) must refuse too, and so must the whole-run model"""
     resp = common.driver_batch([req("split", case["folds"], h) for h in hashes])
@@ -262,29 +361,100 @@ def check_choice_reject(chk, case, hashes, sizes, cap, nmax):
     mfolds = [[[int(x) for x in fold] for fold in _as_lists(dec(r_))] for r_ in resp]
     r = common.driver_batch([
         req("maketrain", cap_arg(cap), sizes, mfolds),
-        req("brewrun", case["folds"], cap_arg(cap), csize(case["cread"], nmax), csize(case["cpred"], nmax), hashes)])
+        req("brewrun", case["folds"], cap_arg(cap), csize(case["cread"], nmax), csize(case["cpred"], nmax), hashes),
+        req("maketraincr", crange or BLOCK_LITERAL, cap_arg(cap), sizes, mfolds)])
     chk.count("maketrain", "reject-choice")
     chk.count("brewrun", "reject")
-    if r[0].strip() != "reject-choice":
+    chk.count("maketraincr", "reject-choice")
+    if r[2].strip() != "reject-choice":
+        chk.corr_break("maketraincr", dict(case=case, impl="ValueError(rng.choice)", model=r[2][:300], cap=cap,
+                                           sizes=sizes, block_size=crange))
+    elif r[0].strip() != "reject-choice":
         chk.corr_break("maketrain", dict(case=case, impl="ValueError(rng.choice)", model=r[0][:300], cap=cap,
                                          sizes=sizes))
     elif r[1].strip() != "reject":
         chk.corr_break("brewrun", dict(case=case, impl="ValueError(rng.choice)", model=r[1][:300]))
 
 
-def compare_train_model(chk, case, info, hashes, sizes, cap, nmax, impl_folds, impl_trains, impl_routing, train_ids):
+MAX_READER_CHUNKS = 60
+
+
+def reader_chunks(ds, n, c):
+    """what the REAL reader delivers to `_predict` for chunk size `c` (the call of brew.py:424-426 on the dataset
+    object brew used): chunk lengths, whether the chunks carry the running row number as index, and the chunk lengths
+    the REAL `utils.create_chunks` makes of a vector that long.  None for more than MAX_READER_CHUNKS chunks (chunks
+    of one or two rows: reading them a second time costs as much as the brew call)"""
+    if n > MAX_READER_CHUNKS * c:
+        return None
+    lens, labels_ok, off = [], True, 0
+    for ch in ds.read_data(columns=ds.columns, chunk_size=c):
+        if list(ch.index) != list(range(off, off + len(ch))):
+            labels_ok = False
+        lens.append(len(ch))
+        off += len(ch)
+    cc = [len(x) for x in P.mod("mokapot.utils").create_chunks(data=np.arange(off), chunk_size=c)]
+    return lens, labels_ok, cc
+
+
+def compare_train_model(chk, case, info, hashes, sizes, cap, nmax, impl_folds, impl_trains, impl_routing, train_ids,
+                        crange=None, dss=()):
     """training sets of the real run vs `makeTrainSets` (per fold and file: everything outside the held-out fold
-    without sub-sampling, exactly the file's share with it) and vs the whole-run model `brewRun` (training table of
-    every fold model over all files, routing of every row)"""
+    without sub-sampling, exactly the file's share with it), vs `makeTrainSetsCr` with the block size the real inner
+    loop ran with, and vs the whole-run model `brewRun` (training table of every fold model over all files, routing
+    of every row); the routing of every file vs the two-chunker model `predictTwo` fed with the chunk lengths the real
+    reader delivers.  Returns False when something was reported."""
     nf, folds = case["nfiles"], case["folds"]
+    cp = csize(case["cpred"], nmax)
+    rdr = [reader_chunks(ds, len(impl_routing[k]), cp) for k, ds in enumerate(dss)]
+    for x in rdr:
+        if x is None:
+            chk.count("reader-chunks", "not-reread(>%d)" % MAX_READER_CHUNKS)
+    rdr = [(k, x) for k, x in enumerate(rdr) if x is not None]
     r = common.driver_batch([
         req("maketrain", cap_arg(cap), sizes, impl_folds),
-        req("brewrun", folds, cap_arg(cap), csize(case["cread"], nmax), csize(case["cpred"], nmax), hashes)])
+        req("brewrun", folds, cap_arg(cap), csize(case["cread"], nmax), cp, hashes),
+        req("maketraincr", crange or BLOCK_LITERAL, cap_arg(cap), sizes, impl_folds)] +
+        [req("predicttwo", x[0], cp, folds, impl_routing[k]) for k, x in rdr])
+    # ---- `_predict`: reader chunks + create_chunks (the real run went through, so the model must not refuse, and
+    # every row must be scored by the model of its own routing entry)
+    for j, (k, (lens, labels_ok, cc)) in enumerate(rdr):
+        chk.count("reader-chunks", "1" if len(lens) == 1 else ("2-3" if len(lens) <= 3 else ">3"))
+        got = dec(r[3 + j])
+        exp = [f * 1000000 + p_ for p_, f in enumerate(impl_routing[k])]
+        bad = None
+        if not labels_ok:
+            bad = "reader chunks do not carry the running row number as index"
+        elif sum(lens) != len(impl_routing[k]):
+            bad = f"reader delivered {sum(lens)} rows of {len(impl_routing[k])}"
+        elif lens != cc:
+            bad = f"reader chunk lengths {lens[:8]} differ from create_chunks lengths {cc[:8]} (brew went through)"
+        elif not isinstance(got, list):
+            bad = f"model refuses: {got}"
+        elif [int(x) for x in got] != exp:
+            bad = "model routes differently"
+        chk.count("predicttwo", "ok" if bad is None else "differs")
+        if bad is not None:
+            chk.corr_break("predicttwo", dict(info, file=k, chunk_size=cp, reader_lengths=lens[:20], why=bad))
+            return False
     mt = dec(r[0])
     if not isinstance(mt, list):
         chk.count("maketrain", str(mt))
         chk.corr_break("maketrain", dict(info, impl="training sets", model=str(mt)))
-        return
+        return False
+    mtc = dec(r[2])
+    chk.count("maketraincr", "ok" if isinstance(mtc, list) else str(mtc))
+    if not isinstance(mtc, list):
+        chk.corr_break("maketraincr", dict(info, impl="training sets", model=str(mtc), block_size=crange))
+        return False
+    for f, ent in enumerate(mtc):
+        flag, per_file = common.a_bool(ent[0]), ent[1]
+        for k in range(nf):
+            m = [int(x) for x in per_file[k]]
+            got = impl_trains[k][f]
+            if not ((len(got) == len(m)) if flag else (sorted(got) == sorted(m))):
+                chk.corr_break("maketraincr", dict(info, fold=f, file=k, subsampled=flag, block_size=crange,
+                                                   impl=sorted(got)[:50], model=m[:50]))
+                return False
     applies, bad = [], None
     for f, ent in enumerate(mt):
         flag, per_file = common.a_bool(ent[0]), ent[1]
@@ -301,12 +471,12 @@ def compare_train_model(chk, case, info, hashes, sizes, cap, nmax, impl_folds, i
     chk.count("cap-applies", "none" if not any(applies) else ("all-folds" if all(applies) else "some-folds"))
     if bad is not None:
         chk.corr_break("maketrain", dict(info, **bad))
-        return
+        return False
     br = dec(r[1])
     if not isinstance(br, list):
         chk.count("brewrun", str(br))
         chk.corr_break("brewrun", dict(info, impl="scores", model=str(br)))
-        return
+        return False
     chk.count("brewrun", "ok")
     models_m, routing_m = br
     bad = None
@@ -325,10 +495,13 @@ def compare_train_model(chk, case, info, hashes, sizes, cap, nmax, impl_folds, i
             bad = dict(file=k, impl_routing=impl_routing[k][:80], model_routing=[int(x) for x in routing_m[k]][:80])
     if bad is not None:
         chk.corr_break("brewrun", dict(info, **bad))
+        return False
+    return True
 
 
 RESCORE_ERR = {"reject-ValueError": (ValueError, "must match the number of folds"),
-               "reject-RuntimeError": (RuntimeError, "not previously trained")}
+               "reject-RuntimeError": (RuntimeError, "not previously trained"),
+               "reject-TypeError": (TypeError, "not supported between instances of")}
 
 
 def rescore(chk, case, info, paths, run, models, scores, fold_of_tag, hashes, impl_trains, cap, nmax):
@@ -356,16 +529,29 @@ def rescore(chk, case, info, paths, run, models, scores, fold_of_tag, hashes, im
         fresh = mokapot.Model(recest.TagProba(run=run), scaler="as-is", train_fdr=0.5, max_iter=2, override=True, rng=0)
         fresh.fold = given[j].fold
         given[j] = fresh
+    elif kind in ("nofold-one", "nofold-all"):
+        # models that did not go through brew's fit loop carry no fold number (Model.fold is None)
+        js = range(len(given)) if kind == "nofold-all" else [r2.randrange(len(given))]
+        for j in js:
+            given[j] = copy.copy(given[j])
+            given[j].fold = None
     chk.count("rescore", kind)
-    exp = dec(common.driver_batch([req("pretrained", folds, [int(m.fold) for m in given],
-                                       [bool(m.is_trained) for m in given])])[0])
+    nofold = any(m.fold is None for m in given)
+    resp = common.driver_batch(
+        [req("pretrainedopt", folds, [[] if m.fold is None else [int(m.fold)] for m in given],
+             [bool(m.is_trained) for m in given])] +
+        ([] if nofold else [req("pretrained", folds, [int(m.fold) for m in given], [bool(m.is_trained) for m in given])]))
+    exp = dec(resp[0])
+    if not nofold and dec(resp[1]) != exp:
+        chk.corr_break("pretrainedopt", dict(info, rescore=kind, model_opt=str(exp), model=str(dec(resp[1]))))
+        return
     dss2 = [mkdata.read_dataset(p) for p in paths]
     try:
         with P.chunk_sizes(predict=csize(case["cpred2"], nmax)):
             _, models2, scores2, _ = mokapot.brew(dss2, given, test_fdr=0.5, folds=folds,
                                                   max_workers=case["workers"], rng=case["seed2"])
         got = "ok"
-    except (ValueError, RuntimeError) as e:
+    except (ValueError, RuntimeError, TypeError) as e:
         got = None
         for name, (cls, msg) in RESCORE_ERR.items():
             if type(e) is cls and msg in str(e):
@@ -374,18 +560,27 @@ def rescore(chk, case, info, paths, run, models, scores, fold_of_tag, hashes, im
             chk.spec_violation("exception:rescore-" + type(e).__name__,
                                dict(info, error=str(e)[:300], clause="brew with the returned models raised"))
             return
+    except Exception as e:
+        chk.spec_violation("exception:rescore-" + type(e).__name__,
+                           dict(info, rescore=kind, error=str(e)[:300],
+                                clause="brew with the returned models raised " + type(e).__name__))
+        return
     chk.count("rescore-outcome", got)
-    info = dict(info, rescore=kind, given_folds=[int(m.fold) for m in given])
-    if not isinstance(exp, list):
+    info = dict(info, rescore=kind, given_folds=[None if m.fold is None else int(m.fold) for m in given])
+    refused_by_model = not isinstance(exp, list)
+    if refused_by_model:
         if got != exp:
             chk.corr_break("pretrained", dict(info, impl=got, model=exp))
-        return
-    if got != "ok":
+        if not (got == "ok" and kind.startswith("nofold")):
+            return
+        # the real code accepted the first run's models without their fold numbers: they are still the models of
+        # this run's folds, so the property applies to what it did with them (evaluated below)
+    elif got != "ok":
         chk.corr_break("pretrained", dict(info, impl=got, model="accepted"))
         return
     # the property on the second run: routing by the identity (tag) of the scoring model, training sets of run 1
     problems = []
-    if [m.fold for m in models2] != list(range(1, folds + 1)):
+    if not refused_by_model and [m.fold for m in models2] != list(range(1, folds + 1)):
         problems.append("rescore-models-not-in-fold-order")
     reqs, routings2 = [], []
     for k, sc in enumerate(scores2):
@@ -404,6 +599,8 @@ def rescore(chk, case, info, paths, run, models, scores, fold_of_tag, hashes, im
         problems += [f"file{k}:rescore-{c}" for c in failed if c]
     if problems:
         chk.spec_violation("cv-integrity:" + problems[0].split(":")[-1], dict(info, problems=problems[:6], clause=problems[0]))
+        return
+    if refused_by_model:
         return
     order_ok = [given[int(p_)].estimator.tag_ for p_ in exp] == [m.estimator.tag_ for m in models2]
     same = all(np.array_equal(np.asarray(a).ravel(), np.asarray(b).ravel()) for a, b in zip(scores, scores2))
@@ -444,7 +641,7 @@ def search(chk):
 
 
 def main(chk, args):
-    build = common.build_and_audit("C02", extra_targets=["MokapotVerif.Mutants.Brew"])
+    build = common.build_and_audit("C02", extra_targets=["MokapotVerif.Mutants.Brew", "MokapotVerif.Mutants.BrewBlocks"])
     if not build.driver_ok:
         chk.finish(build, RULE)
     predict_sweep(chk)
@@ -453,7 +650,7 @@ def main(chk, args):
         run_case(chk, gen_case(chk.rng))
     lc = None
     if chk.tier == "thorough":
-        lcs = [common.leanchecker("C02"), common.leanchecker("C02Multi")]
+        lcs = [common.leanchecker("C02"), common.leanchecker("C02Multi"), common.leanchecker("C02Blocks")]
         lc = (all(x[0] for x in lcs), "\n".join(x[1] for x in lcs))
     chk.assumptions += [
         "the recording estimator observes the rows handed to Model.fit through the first scoring call of the "
@@ -463,8 +660,14 @@ def main(chk, args):
         "joblib returns task results in submission order; list.append is atomic under the GIL",
         "re-scoring: which model scored a row in the second brew() call is read from the score tag of the model "
         "instance (assigned at its first fit in the first call); its training rows are those logged in the first call",
-        "the 5 000 000-row inner loop of make_train_sets is proved equal to the one-step complement "
-        "(C02_train_loop_eq_complement) but not driven (no dataset of that size is generated)",
+        "the inner block loop of make_train_sets (literal block size 5 000 000) is entered by running the real "
+        "function re-created from its own code object with that one constant lowered (histogram `block-loop`); with "
+        "the literal itself no file of that size is generated (C02_make_train_sets_any_block covers every block size)",
+        "the spectrum keys used by the key-level clauses are those of the generated tables; the hash vector handed to "
+        "the Lean model is still computed from the parsed dataset with the code's own expression (its values, not "
+        "only its equalities, decide the folds)",
+        "predicttwo: the chunk lengths and row labels are those a second pass of the real reader over the same file "
+        "delivers (the reader is deterministic)",
     ]
     chk.finish(build, RULE, search=search, lc=lc,
                trusted_extra=["numpy argsort/unique/searchsorted/split/Generator, joblib, pandas concat/reindex"])
